@@ -40,7 +40,9 @@ from .scheduler import OptimizationStrategy
 from .tensor import MemArea
 from .tensor import MemType
 from .tensor import Tensor
+from .tensor import TensorAddressMap
 from .utils import progress_print
+from .weight_compressor import CompressedWeightCache
 
 
 class CompilerOptions:
@@ -158,6 +160,11 @@ def _check_schedule(nng, arch, scheduler_options):
 def compiler_driver(nng, arch, options, scheduler_options, network_type, output_basename, subgraph_output = False):
     assert verify_graph_health(nng)
     verbose_progress = scheduler_options.verbose_progress
+
+    # A compilation must not depend on what was compiled earlier in the same process: forget the tensor addresses
+    # and the compressed weights of previous compilations (both are keyed by ids that are derived from tensor values)
+    TensorAddressMap.clear_address_map()
+    CompressedWeightCache.cache.clear()
 
     # Pre-optimisation operator tracking
     for sg in nng.subgraphs:
